@@ -192,87 +192,166 @@ def _s4(ctx, rep):
         else:
             rep.holds("S4", f, con, "constant stores go to a deep copy of the input on all %d storing path(s)" % n_store_paths, node=f.node)
 
-    # Povm: linear form vec - mean + c, mean = sum(vecs)/m
-    for meth, vecs_src in (("calc_proj_eq_constraint", "self.vecs"), ("calc_proj_eq_constraint_with_var", "vecs")):
-        f = ix.cls(TYPES["povm"]).methods[meth]
-        defs = single_defs(f)
-        loops = [n for n in own_nodes(f.node) if isinstance(n, ast.For) and unparse(n.iter) == vecs_src]
-        ok, why = False, "no loop over the POVM elements"
-        if len(loops) == 1:
-            lv = unparse(loops[0].target)
-            asg = [s for s in loops[0].body if isinstance(s, ast.Assign)]
-            app = [n for s in loops[0].body for n in ast.walk(s) if isinstance(n, ast.Call) and isinstance(n.func, ast.Attribute) and n.func.attr == "append"]
-            if len(asg) == 1 and len(app) == 1 and unparse(app[0].args[0]) == unparse(asg[0].targets[0]):
-                try:
-                    env = {lv: Lin.sym("vec"), "a_bar": Lin.sym("mean"), "c": Lin.sym("c")}
-                    lf = eval_lin(asg[0].value, env)
-                    want = Lin.sym("vec") - Lin.sym("mean") + Lin.sym("c")
-                    if lf != want:
-                        why = "each element becomes %r, expected vec - mean + c" % lf
-                    else:
-                        mean = unparse(defs.get("a_bar")) if "a_bar" in defs else ""
-                        mdef = unparse(defs.get("m")) if "m" in defs else ""
-                        if mean != "np.sum(np.array(%s), axis=0) / m" % vecs_src or mdef != "len(%s)" % vecs_src:
-                            why = "mean is %s with m = %s, expected np.sum(np.array(%s), axis=0) / len(%s)" % (mean, mdef, vecs_src, vecs_src)
-                        else:
-                            ok = True
-                except NotLinear as e:
-                    why = str(e)
-            else:
-                why = "loop body is not `new_vec = ...; new_vecs.append(new_vec)`"
-        rep.check(ok, "S4", f, "Povm.%s form" % meth, "vec - sum/m + c for every element", why, node=f.node)
-    # object- and variable-level Povm siblings use the same c
-    cs = []
+    # Povm: every element becomes vec - mean + c with mean = sum(vecs)/m and c = (sqrt(d)/m) e0
+    from .c03 import scaled_e0_vectors, _size_poly
+    from ..symint import Undecided
+    from ..astutil import deep_inline
+    consts = []
     for meth in ("calc_proj_eq_constraint", "calc_proj_eq_constraint_with_var"):
         f = ix.cls(TYPES["povm"]).methods[meth]
-        d = single_defs(f)
-        cs.append(unparse(d["c"]).replace("self.dim", "DIM").replace("c_sys.dim", "DIM") if "c" in d else None)
-    rep.check(cs[0] is not None and cs[0] == cs[1], "S4", TYPES["povm"] + ".calc_proj_eq_constraint", "Povm sibling constants",
-              "object- and variable-level projections add the same constant vector", "constants differ: %s vs %s" % (cs[0], cs[1]),
-              file="quara/objects/povm.py", line=1)
+        con = "Povm.%s form" % meth
+        em = _element_maps(f)
+        if len(em) != 1:
+            rep.undecided("S4", f, con, "expected one element-wise map over the POVM elements (append loop or comprehension), found %d" % len(em))
+            consts.append(None)
+            continue
+        src, lv, expr, node = em[0]
+        defs = single_defs(f)
+        # classify the names the element expression mentions by what they are defined as
+        roles = {lv: "vec"}
+        mean_ok = True
+        for nm in sorted({x.id for x in ast.walk(expr) if isinstance(x, ast.Name)} - {lv}):
+            d = defs.get(nm)
+            if d is None:
+                continue
+            keep = {x.id for x in ast.walk(src) if isinstance(x, ast.Name)}
+            dd = inline(f, d, defs={k: v for k, v in defs.items() if k not in keep})
+            t = unparse(dd).replace(" ", "")
+            s0 = unparse(src).replace(" ", "")
+            if t in ("np.sum(np.array(%s),axis=0)/len(%s)" % (s0, s0), "np.sum(%s,axis=0)/len(%s)" % (s0, s0), "np.mean(np.array(%s),axis=0)" % s0,
+                     "np.mean(%s,axis=0)" % s0, "sum(%s)/len(%s)" % (s0, s0)):
+                roles[nm] = "mean"
+            elif t.startswith(("np.sum(np.array(%s),axis=0)/" % s0, "np.sum(%s,axis=0)/" % s0, "sum(%s)/" % s0)):
+                rep.violation("S4", f, con, "the mean of the elements is computed as `%s`: the sum of the m elements must be divided by m = len(%s)"
+                              % (unparse(dd), s0), node=node)
+                mean_ok = False
+            elif any(v[0] is d or (isinstance(d, ast.Call) and v[0] is d) for v in scaled_e0_vectors(f)) or \
+                    any(isinstance(v[0], ast.Assign) and v[0].targets[0].id == nm for v in scaled_e0_vectors(f) if isinstance(v[0], ast.Assign)):
+                roles[nm] = "c"
+        if not mean_ok:
+            consts.append(None)
+            continue
+        try:
+            env = {k: Lin.sym(v) for k, v in roles.items()}
+            lf = eval_lin(expr, env)
+            want = Lin.sym("vec") - Lin.sym("mean") + Lin.sym("c")
+            if lf == want:
+                rep.holds("S4", f, con, "vec - sum/m + c for every element", node=node)
+            elif set(roles.values()) >= {"vec", "mean", "c"}:
+                rep.violation("S4", f, con, "each element becomes %r, expected vec - mean + c" % lf, node=node)
+            else:
+                rep.undecided("S4", f, con, "element map %s: could not identify the mean (sum of the elements / their number) and the constant c e0 among %s"
+                              % (unparse(expr), sorted(set(x.id for x in ast.walk(expr) if isinstance(x, ast.Name)))))
+        except NotLinear as e:
+            rep.undecided("S4", f, con, str(e))
+        # the constant, as polynomials in d and m
+        vs = [v for v in scaled_e0_vectors(f)]
+        if len(vs) == 1:
+            try:
+                consts.append((_size_poly(vs[0][1], vs[0][4]), _size_poly(vs[0][2], vs[0][4]) + (1 if vs[0][3] == "tail" else 0)))
+            except Undecided:
+                consts.append(None)
+        else:
+            consts.append(None)
+    if consts[0] is None or consts[1] is None:
+        rep.undecided("S4", TYPES["povm"] + ".calc_proj_eq_constraint", "Povm sibling constants", "constant vector c e0 not recognised in both projections")
+    else:
+        rep.check(consts[0] == consts[1], "S4", TYPES["povm"] + ".calc_proj_eq_constraint", "Povm sibling constants",
+                  "object- and variable-level projections add the same constant vector (%r e0 of length %r)" % consts[0],
+                  "constants differ: %r e0 (length %r) vs %r e0 (length %r)" % (consts[0] + consts[1]), file="quara/objects/povm.py", line=1)
 
     # MProcess: row0(hs) -= (sum of row0 - e0) / m  for every outcome, on a copy
     forms = []
-    for meth, src, copy_needed in (("calc_proj_eq_constraint", "hss", True), ("calc_proj_eq_constraint_with_var", "hss", True)):
+    for meth in ("calc_proj_eq_constraint", "calc_proj_eq_constraint_with_var"):
         f = ix.cls(TYPES["mprocess"]).methods[meth]
-        txt = [unparse(s) for s in f.node.body]
-        loops = [n for n in own_nodes(f.node) if isinstance(n, ast.For) and unparse(n.iter) == src]
-        acc = [s for l in loops for s in l.body if isinstance(s, ast.AugAssign) and isinstance(s.op, ast.Add) and unparse(s.target) == "vec" and unparse(s.value) == unparse(l.target) + "[0]"]
-        sub1 = [s for s in own_nodes(f.node) if isinstance(s, ast.AugAssign) and isinstance(s.op, ast.Sub) and unparse(s.target) == "vec[0]" and is_num(s.value, 1)]
-        upd = [s for l in loops for s in l.body if isinstance(s, ast.AugAssign) and isinstance(s.op, ast.Sub) and unparse(s.target) == unparse(l.target) + "[0]"
-               and unparse(s.value) == "vec / len(%s)" % src]
-        zero = _first_stmt_value(f, "vec")
-        ok = len(loops) == 2 and len(acc) == 1 and len(sub1) == 1 and len(upd) == 1 and zero is not None and unparse(zero.value).startswith("np.zeros(")
-        forms.append((len(acc), len(sub1), len(upd)))
-        why = "expected: vec = sum of first rows; vec[0] -= 1; every first row -= vec / m (found accumulate=%d, minus-e0=%d, update=%d)" % (len(acc), len(sub1), len(upd))
-        if ok:
-            # order: accumulate loop, then vec[0] -= 1, then update loop
+        con = "MProcess.%s form" % meth
+        loops = [n for n in own_nodes(f.node) if isinstance(n, ast.For) and isinstance(n.target, ast.Name) and isinstance(n.iter, ast.Name)]
+        acc = upd = None
+        for l in loops:
+            for st in l.body:
+                if isinstance(st, ast.AugAssign) and isinstance(st.op, ast.Add) and isinstance(st.target, ast.Name) \
+                        and unparse(st.value) == "%s[0]" % l.target.id:
+                    acc = (l, st)
+                if isinstance(st, ast.AugAssign) and isinstance(st.op, ast.Sub) and unparse(st.target) == "%s[0]" % l.target.id:
+                    upd = (l, st)
+        if acc is None or upd is None:
+            rep.undecided("S4", f, con, "expected a loop accumulating the first rows and a loop subtracting the spread defect from every first row")
+            forms.append(None)
+            continue
+        A = acc[1].target.id
+        lst = acc[0].iter.id
+        same_list = upd[0].iter.id == lst
+        sub1 = [x for x in own_nodes(f.node) if isinstance(x, ast.AugAssign) and isinstance(x.op, ast.Sub) and unparse(x.target) == "%s[0]" % A and is_num(x.value, 1)]
+        zero = _first_stmt_value(f, A)
+        uv = inline(f, upd[1].value, defs={k: v for k, v in single_defs(f).items() if k not in (lst, A)})
+        spread_ok = isinstance(uv, ast.BinOp) and isinstance(uv.op, ast.Div) and unparse(uv.left) == A \
+            and unparse(uv.right).replace(" ", "") in ("len(%s)" % lst, "len(self.hss)", "len(self._hss)")
+        problems = []
+        if not same_list:
+            problems.append("the first rows are accumulated over `%s` but the correction is applied to `%s`" % (lst, upd[0].iter.id))
+        if len(sub1) != 1:
+            problems.append("e0 is not subtracted from the accumulated first rows (`%s[0] -= 1` found %d times)" % (A, len(sub1)))
+        if zero is None or not unparse(zero.value).startswith("np.zeros("):
+            problems.append("the accumulator `%s` does not start at zero" % A)
+        if not spread_ok:
+            problems.append("every first row is reduced by `%s`, expected the accumulated defect divided by the number of outcomes" % unparse(uv))
+        if not problems:
             cfg = ctx.cfg(f)
-            l_acc = next(l for l in loops if acc[0] in l.body)
-            l_upd = next(l for l in loops if upd[0] in l.body)
-            ok = cfg.dominates(cfg.by_ast[id(l_acc)], cfg.node_of(sub1[0])) and cfg.dominates(cfg.node_of(sub1[0]), cfg.by_ast[id(l_upd)])
-            why = "the defect must be accumulated and e0 subtracted before it is spread"
-        rep.check(ok, "S4", f, "MProcess.%s form" % meth, "row0 -= (sum row0 - e0)/m for every outcome", why, node=f.node)
+            ok = cfg.dominates(cfg.by_ast[id(acc[0])], cfg.node_of(sub1[0])) and cfg.dominates(cfg.node_of(sub1[0]), cfg.by_ast[id(upd[0])])
+            if not ok:
+                problems.append("the defect must be accumulated and e0 subtracted before it is spread")
+        forms.append(tuple(problems))
+        if problems:
+            rep.violation("S4", f, con, "; ".join(problems), node=upd[1])
+        else:
+            rep.holds("S4", f, con, "row0 -= (sum row0 - e0)/m for every outcome", node=upd[1])
         # the rows written belong to a private copy
-        d = _first_stmt_value(f, src)
+        d = _first_stmt_value(f, lst)
+        con2 = "MProcess.%s works on a copy" % meth
         if d is not None:
             v = d.value
             is_copy = isinstance(v, ast.Call) and (dotted(v.func) or "") == "copy.deepcopy"
             via_conv = isinstance(v, ast.Call) and "convert_var_to_hss" in (dotted(v.func) or "")
+            if isinstance(v, ast.Call) and (dotted(v.func) or "") == "copy.deepcopy" and v.args and isinstance(v.args[0], ast.Call) \
+                    and "convert_var_to_hss" in (dotted(v.args[0].func) or ""):
+                is_copy = True
             if is_copy:
-                rep.holds("S4", f, "MProcess.%s works on a copy" % meth, "hss = copy.deepcopy(...)", node=d)
+                rep.holds("S4", f, con2, "%s = copy.deepcopy(...)" % lst, node=d)
             elif via_conv:
                 # the conversion returns reshaped views of `var` when the flag is off: S3 (effects) decides whether the write reaches the argument
                 ef = effects_for(ctx)
                 sm = ef.summ.get(f.qualname)
                 clean = sm is not None and not [r for r in sm.mut if r[0] == "var"]
-                rep.check(clean, "S4", f, "MProcess.%s works on a copy" % meth, "the rows written do not alias the argument",
+                rep.check(clean, "S4", f, con2, "the rows written do not alias the argument",
                           "convert_var_to_hss returns reshaped views of `var` (flag off), and their first rows are written in place", node=d)
             else:
-                rep.violation("S4", f, "MProcess.%s works on a copy" % meth, "the list whose rows are written is %s, not a copy" % unparse(v), node=d)
-    rep.check(len(set(forms)) == 1, "S4", TYPES["mprocess"] + ".calc_proj_eq_constraint", "MProcess sibling forms", "object- and variable-level forms agree",
-              "forms differ: %s" % forms, file="quara/objects/mprocess.py", line=1)
+                rep.violation("S4", f, con2, "the list whose rows are written is %s, not a copy" % unparse(v), node=d)
+        else:
+            rep.undecided("S4", f, con2, "definition of `%s` not found" % lst)
+    if None not in forms:
+        rep.check(len(set(forms)) == 1, "S4", TYPES["mprocess"] + ".calc_proj_eq_constraint", "MProcess sibling forms", "object- and variable-level forms agree",
+                  "forms differ: %s" % (forms,), file="quara/objects/mprocess.py", line=1)
 
+
+def _element_maps(f: Func):
+    """element-wise maps `new = [EXPR for v in SRC]` / `for v in SRC: t = EXPR; L.append(t)` -> [(SRC node, v, EXPR, node)]"""
+    out = []
+    for n in own_nodes(f.node):
+        if isinstance(n, ast.ListComp) and len(n.generators) == 1 and isinstance(n.generators[0].target, ast.Name) and not n.generators[0].ifs:
+            g = n.generators[0]
+            if any(isinstance(x, ast.Name) and x.id == g.target.id for x in ast.walk(n.elt)) and isinstance(n.elt, ast.BinOp):
+                out.append((g.iter, g.target.id, n.elt, n))
+        if isinstance(n, ast.For) and isinstance(n.target, ast.Name):
+            apps = [c for st in n.body for c in ast.walk(st) if isinstance(c, ast.Call) and isinstance(c.func, ast.Attribute) and c.func.attr == "append" and c.args]
+            if len(apps) == 1:
+                e = apps[0].args[0]
+                local = {st.targets[0].id: st.value for st in n.body if isinstance(st, ast.Assign) and len(st.targets) == 1 and isinstance(st.targets[0], ast.Name)}
+                for _ in range(3):
+                    if isinstance(e, ast.Name) and e.id in local:
+                        e = local[e.id]
+                if isinstance(e, ast.BinOp) and any(isinstance(x, ast.Name) and x.id == n.target.id for x in ast.walk(e)):
+                    out.append((n.iter, n.target.id, e, n))
+    return out
 
 
 # ------------------------------------------------------------------------------ S5
